@@ -167,6 +167,9 @@ class Interp(object):
     def event(self, *ev):
         self.events.append(ev)
 
+    def events_of(self, kind):
+        return [e for e in self.events if e[0] == kind]
+
     # ----------------------------------------------------------------- heap
     def field_spec(self, cls, field):
         specs = self.registry.get('fields', {})
@@ -1093,6 +1096,8 @@ class Interp(object):
         if isinstance(v, _ReplayColl):
             v.store(self, k, val)
             return
+        if self.ex.trial and isinstance(v, Native):
+            raise Undecided('side effect on a model object inside a trial')
         if isinstance(v, Native):
             return v.setitem(self, k, val)
         if isinstance(v, Opaque):
@@ -1326,6 +1331,8 @@ class Interp(object):
                 if self.ex.branch(nf):
                     self.raise_(AttributeError, name)
             return self.write_field(v, name, value)
+        if self.ex.trial and isinstance(v, (Native, ExcVal)):
+            raise Undecided('side effect on a model object inside a trial')
         if isinstance(v, Native):
             return v.setattr(self, name, value)
         if isinstance(v, ExcVal):
@@ -1364,10 +1371,14 @@ class Interp(object):
         # 1. contracts / stubs keyed by real object identity
         key = _ident(fv)
         if key is not None and key in reg:
+            if self.ex.trial:
+                raise Undecided('contract call inside a trial')
             return reg[key](self, args, kwargs)
         if isinstance(fv, BoundMethod):
             key = _ident(fv.func)
             if key is not None and key in reg:
+                if self.ex.trial:
+                    raise Undecided('contract call inside a trial')
                 return reg[key](self, [fv.self] + list(args), kwargs)
             f = fv.func
             if isinstance(f, (_ContainerMethod, _StrMethod)):
@@ -1376,6 +1387,8 @@ class Interp(object):
         if isinstance(fv, Closure):
             return self.call_closure(fv, args, kwargs)
         if isinstance(fv, Native):
+            if self.ex.trial and not getattr(fv, 'pure', False):
+                raise Undecided('call of a model object inside a trial')
             return fv.call(self, args, kwargs)
         if isinstance(fv, types.FunctionType):
             hook = self.registry.get('function_hook')
